@@ -166,10 +166,41 @@ def r09_2(rep: Report, idx: Index) -> None:
                 ds = [a_ for a_ in ast.walk(cg) if isinstance(a_, ast.Assign) and norm(a_.targets[0]) == v.id]
                 v = ds[0].value if len(ds) == 1 else None
             patch_src = v
+    excl = set()
+    extra_filters: list[str] = []
+    if isinstance(patch_src, ast.DictComp) and len(patch_src.generators) == 1:
+        # {name: value for name, value in <manifest parameters>.items() if name not in {...}}
+        g = patch_src.generators[0]
+        src_ = g.iter.func.value if isinstance(g.iter, ast.Call) and isinstance(g.iter.func, ast.Attribute) \
+            and g.iter.func.attr == 'items' else None
+        for cond in g.ifs:
+            parts = cond.values if isinstance(cond, ast.BoolOp) and isinstance(cond.op, ast.And) else [cond]
+            for pc_ in parts:
+                lit = None
+                if isinstance(pc_, ast.Compare) and len(pc_.ops) == 1 and isinstance(pc_.ops[0], ast.NotIn):
+                    try:
+                        lit = set(ast.literal_eval(pc_.comparators[0]))
+                    except Exception:
+                        lit = None
+                if lit is not None:
+                    excl |= lit
+                else:
+                    extra_filters.append(norm(pc_))
+        if isinstance(src_, ast.Name):
+            ds = [a_ for a_ in ast.walk(cg) if isinstance(a_, ast.Assign) and norm(a_.targets[0]) == src_.id]
+            patch_src = ds[0].value if len(ds) == 1 else None
+        else:
+            patch_src = None
     if not (isinstance(patch_src, ast.Call) and (call_name(patch_src) or '').endswith('generate_cgi_parameters')):
         raise AnalysisError('calculate_cgi_parameters: the patch parameter set is not produced by '
                             'generate_cgi_parameters')
-    excl = set()
+    if extra_filters:
+        rep.fail(rid, f'{MC}::ManifestContext.calculate_cgi_parameters', 'patch query carries every other option',
+                 f'the PatchLocation query drops parameters under `{extra_filters[0][:80]}`: options that shape the '
+                 'manifest (e.g. the clock drift) are missing when the patch is rendered, so patch and manifest '
+                 'are built from different option vectors', cg)
+    else:
+        rep.ok(rid, f'{MC}::ManifestContext.calculate_cgi_parameters', 'patch query carries every other option')
     for c_ in ast.walk(patch_src):
         if isinstance(c_, ast.Call) and isinstance(c_.func, ast.Attribute) and c_.func.attr == 'union' and c_.args:
             arg = c_.args[0]
